@@ -10,11 +10,38 @@ namespace MC.Props.C14
 open MC.Loader MC.Props.C10
 
 /-- **a fault is an error, not a stale answer**: if a cache has to load and a file it needs is broken, the call reports
-the error; the table is empty afterwards and the recorded files are untouched -/
+the error; afterwards the cache is in the state of a fresh session (nothing loaded, nothing recorded) -/
 theorem fault_is_error (k : Kind) (c : Cell) (pref : Path) (ignore : Bool) (fs : FS)
     (hn : needsLoad k c pref ignore fs = true) (hb : (fs.incl pref).all fs.good = false) :
-    (refresh k c pref ignore fs).2 = false ∧ (refresh k c pref ignore fs).1 = ⟨c.files, []⟩ := by
+    (refresh k c pref ignore fs).2 = false ∧ (refresh k c pref ignore fs).1 = Cell.empty := by
   unfold refresh; simp [hn, hb]
+
+/-- whenever a refresh reports an error, the cache it leaves is the empty one -/
+theorem error_leaves_empty (k : Kind) (c : Cell) (pref : Path) (ignore : Bool) (fs : FS)
+    (he : (refresh k c pref ignore fs).2 = false) : (refresh k c pref ignore fs).1 = Cell.empty := by
+  unfold refresh at he ⊢
+  by_cases hn : needsLoad k c pref ignore fs = true
+  · by_cases hg : (fs.incl pref).all fs.good = true
+    · simp [hn, hg] at he
+    · simp [hn, hg]
+  · simp [hn] at he
+
+/-- an empty cache always loads: every kind, whatever `CheckRuleFiles` says and whichever file is preferred -/
+theorem empty_needs_load (k : Kind) (pref : Path) (ignore : Bool) (fs : FS) : needsLoad k Cell.empty pref ignore fs = true := by
+  cases k <;> simp [needsLoad, Cell.empty, upToDate]
+
+/-- **recovery after an error is complete, in every `CheckRuleFiles` mode and after re-pointing**: whatever the cache held,
+if a refresh fails (some file is broken), then the next refresh against repaired files — any preferred file, file checking
+on or off, whatever the time stamps — succeeds and builds exactly the table a fresh session builds.
+(Before the repair 'fix: a failed load of rule files is retried', the record of the files survived the failed load: going back
+to the files recorded there left the short Unicode table and the definitions empty, see DESIGN §8.2.) -/
+theorem recovery_after_error (k : Kind) (c : Cell) (pref pref' : Path) (ignore ignore' : Bool) (fs fs' : FS)
+    (he : (refresh k c pref ignore fs).2 = false) (hs : Sane fs') :
+    (refresh k (refresh k c pref ignore fs).1 pref' ignore' fs').2 = true ∧
+    (refresh k (refresh k c pref ignore fs).1 pref' ignore' fs').1.data = contentOf fs' (fs'.incl pref') := by
+  rw [error_leaves_empty k c pref ignore fs he]
+  unfold refresh
+  simp [empty_needs_load, hs.good pref']
 
 /-- a failing rule set makes the whole call fail (and later caches are not touched) -/
 theorem call_reports_rules_fault (s : Caches) (p : Pref) (ignore full : Bool) (fs : FS)
@@ -54,12 +81,21 @@ theorem retry_after_error (c : Cell) (pref : Path) (ignore : Bool) (fs : FS) (hd
     needsLoad .rules c pref ignore fs = true ∧ needsLoad .uniFull c pref ignore fs = true := by
   simp [needsLoad, hd]
 
-/-- ... the short Unicode table and the definitions do NOT: after a failed load, without file checking and with the same
-preferred file, the empty table is kept (recovery then needs `CheckRuleFiles=All` or re-pointing, as the property says) -/
-theorem no_retry_without_check :
-    ∃ (c : Cell) (fs : FS), c.data = [] ∧ (fs.incl 3).all fs.good = true ∧
-      (refresh .uniShort c 3 true fs).1.data = [] ∧ (refresh .defs c 3 true fs).1.data = [] :=
-  ⟨⟨[(3, 50)], []⟩, { content := fun _ => 1, mtime := fun _ => 60, good := fun _ => true, incl := fun p => [p] }, rfl, by decide, by decide, by decide⟩
+/-- every cache a session can reach has a record exactly when it has a table (so "recorded but empty", the state in which
+the short Unicode table and the definitions used not to retry, does not occur) -/
+def Paired (c : Cell) : Prop := c.files = [] ↔ c.data = []
+
+theorem paired_refresh (k : Kind) (c : Cell) (pref : Path) (ignore : Bool) (fs : FS) (hs : Sane fs) (h : Paired c) :
+    Paired (refresh k c pref ignore fs).1 := by
+  unfold refresh
+  by_cases hn : needsLoad k c pref ignore fs = true
+  · by_cases hg : (fs.incl pref).all fs.good = true
+    · obtain ⟨rest, hr⟩ := hs.head pref
+      rw [hr] at hg
+      simp only [hn, if_true, Paired, timesOf, contentOf, hr, List.map_cons, hg]
+      constructor <;> intro h' <;> cases h'
+    · simp [hn, hg, Paired, Cell.empty]
+  · simp [hn]; exact h
 
 /-- **recovery is complete** (one cache). After ANY sequence of faults and failed or successful calls, let the files be
 repaired (`Sane`). With file checking enabled, a cache that is not already coherent with the repaired files is reloaded
@@ -92,9 +128,10 @@ theorem recovery_complete_call (s : Caches) (p : Pref) (full : Bool) (fs : FS) (
   | true => simp only [if_true, view, freshView, r.2, u.2, d.2, f.2]; exact ⟨f.1, trivial⟩
   | false => simp only [Bool.false_eq_true, if_false, view, freshView, r.2, u.2, d.2]; exact ⟨trivial, trivial⟩
 
-/-- why "strictly newer" is needed: a repair that restores the old time stamp is not seen -/
+/-- why "strictly newer" is needed for a change that did NOT produce an error: a file rewritten with its old time stamp
+is not seen (the table built from version 1 is kept although the file now holds version 2) -/
 theorem same_time_not_noticed :
-    ∃ (c : Cell) (fs : FS), c.data = [] ∧ (fs.incl 3).all fs.good = true ∧ (refresh .uniShort c 3 false fs).1.data = [] :=
-  ⟨⟨[(3, 50)], []⟩, { content := fun _ => 1, mtime := fun _ => 50, good := fun _ => true, incl := fun p => [p] }, rfl, by decide, by decide⟩
+    ∃ (c : Cell) (fs : FS), (fs.incl 3).all fs.good = true ∧ c.data = [(3, 1)] ∧ fs.content 3 = 2 ∧ (refresh .uniShort c 3 false fs).1.data = [(3, 1)] :=
+  ⟨⟨[(3, 50)], [(3, 1)]⟩, { content := fun _ => 2, mtime := fun _ => 50, good := fun _ => true, incl := fun p => [p] }, by decide, rfl, rfl, by decide⟩
 
 end MC.Props.C14
